@@ -2,7 +2,7 @@ set -u
 cd /verif
 r() { # name file old new -- args
   name=$1; shift
-  out=$(python3 selftest/mutate.py "$@" 2>&1 | grep -v "discharged\|note:" | grep -c "failed\|undecided\|UNSUPPORTED\|ENGINE")
+  out=$(python3 selftest/mutate.py "$@" 2>&1 | grep -v "discharged\|note:" | grep -c "failed\|undecided\|UNSUPPORTED\|ENGINE\|mutate: old text")
   echo "$name: problems=$out"
 }
 # 1. equivalent padding arithmetic
@@ -10,15 +10,18 @@ r pad-equiv internal/proto/stun_conn.go 'if paddingOverflow := (datagramSize + c
 			datagramSize = (datagramSize + channelDataPadding) - paddingOverflow
 		}' 'datagramSize = (datagramSize + 3) / 4 * 4' -- verify proto.consumeSingleTURNFrame
 # 2. rename a local
-r rename-local internal/proto/stun_conn.go 'paddingOverflow' 'rem' -- verify proto.consumeSingleTURNFrame
-# 3. early-return restructuring in createPermission (explicit unlock on both paths instead of defer)
+MUTATE_ALL=1 r rename-local internal/proto/stun_conn.go 'paddingOverflow' 'rem' -- verify proto.consumeSingleTURNFrame
+# 3. early-return restructuring in createPermission (explicit unlock on every path instead of defer)
 r explicit-unlock internal/client/udp_conn.go '	perm.mutex.Lock()
 	defer perm.mutex.Unlock()
 
 	if perm.state() == permStateIdle {
 		// Punch a hole! (this would block a bit..)
 		if err := a.CreatePermissions(addr); err != nil {
-			a.permMap.delete(addr)
+			// The caller retries a stale nonce with the same permission: keep it registered
+			if !errors.Is(err, errTryAgain) {
+				a.permMap.delete(addr)
+			}
 
 			return err
 		}
@@ -33,7 +36,9 @@ r explicit-unlock internal/client/udp_conn.go '	perm.mutex.Lock()
 	}
 	err := a.CreatePermissions(addr)
 	if err != nil {
-		a.permMap.delete(addr)
+		if !errors.Is(err, errTryAgain) {
+			a.permMap.delete(addr)
+		}
 		perm.mutex.Unlock()
 
 		return err
